@@ -40,7 +40,7 @@ def observed_copies(coverage, cn_solution, m):
             else support(coverage, m) / single_depth(coverage, cn_solution, m.pos, depth_at(coverage, m)))
 
 
-@contract("aldy.major.solve_major_model", external={"aldy.major._print_candidates": ""})
+@contract("aldy.major.solve_major_model", external={"aldy.major._print_candidates": ""}, native=False)
 def _(gene, coverage, cn_solution, allele_dict, solver, identifier, debug):
     types(allele_dict="Dict[str, MajorAllele]", solver="str", identifier="int", debug="Optional[str]")
     requires(cn_wf(cn_solution), gene_wf(gene), sameobj(cn_solution.gene, gene) or True)
